@@ -81,11 +81,44 @@ class Obligation:
 REGISTRY: Dict[Tuple[str, str], Obligation] = {}
 
 
-def ob(prop, oid, args, **kw):
-    """decorator: register `fn` as obligation `oid` of property `prop`"""
+ENUM_DOC = ("SOLVER-ENUMERATED: every argument of this obligation is a selector (flag / index / small integer); each is made concrete by a fork under the engine "
+            "(chx.shim.fix_bool/fix_int) and the real code then runs untraced at native speed; the verdict is the exhaustion of the argument space by the solver")
+
+
+def _enumerated(fn, args):
+    """wrap `fn` so that every argument is made concrete by a fork and the body then runs outside the tracer (only for selector-only obligations)"""
+    names = list(args)
+
+    def body(*a, **kwargs):
+        from chx.shim import fix_bool, fix_int, untraced
+
+        vals = dict(zip(names, a))
+        vals.update(kwargs)
+        fixed = {}
+        for n, v in vals.items():
+            t = args.get(n)
+            if t is None:
+                fixed[n] = v
+            elif t[0] == "bool":
+                fixed[n] = fix_bool(v)
+            elif t[0] == "int":
+                fixed[n] = fix_int(v, t[1], t[2])
+            else:
+                raise TypeError("enumerated obligations take int/bool selectors only")
+        return untraced(lambda: fn(**fixed))
+
+    body.__name__ = getattr(fn, "__name__", "body")
+    body.__wrapped__ = fn
+    return body
+
+
+def ob(prop, oid, args, enum=False, **kw):
+    """decorator: register `fn` as obligation `oid` of property `prop`; enum=True: selector-only obligation, see ENUM_DOC"""
 
     def deco(fn):
-        o = Obligation(prop=prop, oid=oid, fn=fn, args=dict(args), module=fn.__module__, **kw)
+        if enum:
+            kw["assumes"] = list(kw.get("assumes", [])) + [ENUM_DOC]
+        o = Obligation(prop=prop, oid=oid, fn=_enumerated(fn, dict(args)) if enum else fn, args=dict(args), module=fn.__module__, **kw)
         key = (prop, oid)
         if key in REGISTRY:
             raise RuntimeError("duplicate obligation %s.%s" % key)
